@@ -1564,7 +1564,9 @@ impl<'arena> PrettyFormatter<'arena> {
     }
 
     fn named_term(&self, term: TermId, field: &FieldName, inner: TermId) -> RcDoc<'arena> {
-        let payload = self.punning.term_payload(field, inner);
+        let payload = self
+            .punning
+            .term_payload_through(field, inner, &|term| self.transparent_term_group(term));
         match payload {
             | Some(PunnedTermPayload::Variable) => RcDoc::text("= ").append(self.field(field)),
             | Some(PunnedTermPayload::Annotated { variable, classifier }) => {
@@ -1661,7 +1663,10 @@ impl<'arena> PrettyFormatter<'arena> {
     }
 
     fn named_pattern(&self, pattern: PatId, field: &FieldName, inner: PatId) -> RcDoc<'arena> {
-        match self.punning.pattern_payload(field, inner) {
+        match self
+            .punning
+            .pattern_payload_through(field, inner, &|pattern| self.transparent_pattern_group(pattern))
+        {
             | Some(PunnedPatternPayload::Variable) => RcDoc::text("= ").append(self.field(field)),
             | Some(PunnedPatternPayload::Annotated { variable, classifier }) => {
                 RcDoc::text("= ").append(self.field(field)).append(self.fragment_boundary(
@@ -1679,7 +1684,10 @@ impl<'arena> PrettyFormatter<'arena> {
     }
 
     fn projection_pattern(&self, pattern: PatId, field: &FieldName, inner: PatId) -> RcDoc<'arena> {
-        match self.punning.pattern_payload(field, inner) {
+        match self
+            .punning
+            .pattern_payload_through(field, inner, &|pattern| self.transparent_pattern_group(pattern))
+        {
             | Some(PunnedPatternPayload::Variable) => RcDoc::text("/").append(self.field(field)),
             | Some(PunnedPatternPayload::Annotated { variable, classifier }) => {
                 RcDoc::text("/").append(self.field(field)).append(self.fragment_boundary(
@@ -1896,7 +1904,9 @@ impl<'arena> PrettyFormatter<'arena> {
             |inner, (depth, (named, field))| {
                 let inner_last = inner.anchors.last;
                 let document = if depth == 0 {
-                    match self.punning.pattern_payload(field, binder) {
+                    match self.punning.pattern_payload_through(field, binder, &|pattern| {
+                        self.transparent_pattern_group(pattern)
+                    }) {
                         | Some(PunnedPatternPayload::Variable) => {
                             RcDoc::text("= ").append(self.field(field))
                         }
